@@ -5,7 +5,7 @@ from lexcorr import *
 from parsecorr import impl_parse
 
 PROP_FILES = ["props/C10.v"]
-TRANSLATORS = ["tr_lexer.py", "tr_parser_tables.py"]
+TRANSLATORS = ["tr_lexer.py", "tr_parser_tables.py", "tr_litspec.py"]
 TRUSTED = ["the literal grammar below is written from C99 6.4.4 / 6.4.5 plus the documented extensions (binary integers, u8/u/U prefixes, lenient escape letters and decimal escapes, multi-character constants of 2-4 characters)"]
 ASSUMPTIONS = []
 
